@@ -36,6 +36,9 @@ def one(name):
         # the working tree of /repo is what counts (it equals HEAD unless a hook is being developed)
         r = subprocess.run(["git", "-C", repo, "apply", os.path.join(d, "patch.diff")], capture_output=True, text=True)
         if r.returncode != 0:
+            # a later fix: commit changed a neighbouring line: the hunk still applies with one line of context
+            r = subprocess.run(["git", "-C", repo, "apply", "-C1", os.path.join(d, "patch.diff")], capture_output=True, text=True)
+        if r.returncode != 0:
             return {"property": prop, "status": "stale-patch", "detail": r.stderr.strip()[:200]}
         t0 = time.time()
         env = dict(os.environ, VERIF_REPO=repo, VERIF_EVIDENCE_DIR=os.path.join(tmp, "evidence"), VERIF_REPLAY_DIR=os.path.join(tmp, "replays"))
